@@ -262,7 +262,7 @@ def _contents(q):
     return out
 
 
-def check_queues(R, rule_prefix="R12"):
+def check_queues(R, rule_prefix="R12", tier="quick"):
     """Decision tables of the ErrorQueue impls over every queue state up to the capacity (capacities 1..3 for the
     bounded queue, lengths 0..4 for the growable one), compared with the FIFO-with-overflow-marker specification."""
     P = CB.prog()
@@ -289,7 +289,8 @@ def check_queues(R, rule_prefix="R12"):
         return out
 
     n_rows = 0
-    for who, caps, rule in (("arrayvec::ArrayVec", (1, 2, 3), r1), ("alloc::vec::Vec", (None,), r2)):
+    deep = tier == "thorough"
+    for who, caps, rule in (("arrayvec::ArrayVec", (1, 2, 3, 4, 5, 6, 8) if deep else (1, 2, 3), r1), ("alloc::vec::Vec", (None,), r2)):
         short = who.split("::")[-1]
         try:
             bodies = {m: impl_body(u, who, m) for m in ("push_back_error", "pop_front_error", "num_errors", "clear_errors")}
@@ -305,7 +306,7 @@ def check_queues(R, rule_prefix="R12"):
                 pass
         bad = {m: [] for m in bodies}
         for cap in caps:
-            for k in range(0, (cap if cap is not None else 4) + 1):
+            for k in range(0, (cap if cap is not None else (9 if deep else 4)) + 1):
                 before = ["e%d" % i for i in range(k)]
                 n_rows += 4
                 # push_back_error
@@ -353,6 +354,6 @@ def _val(x):
 
 def run(R, tier):
     R.configs.append("dflt")
-    check_queues(R, "R12")
+    check_queues(R, "R12", tier)
     # R12.3 sibling agreement is the conjunction of the two tables: both behave as the same FIFO specification
     R.ok("R12.3", "siblings", "both impls are compared with the same FIFO specification (the bounded one additionally with the overflow marker)")
